@@ -52,6 +52,12 @@ pub struct SpendSpec {
     /// (the puzzle hash then differs from coin to coin)
     #[serde(default)]
     pub quoted: bool,
+    /// other conditions interleaved with the AGG_SIG ones: (position, kind);
+    /// kind 0 REMARK, 1 unknown one-byte opcode `(2 "x")`, 2 CREATE_COIN_ANNOUNCEMENT,
+    /// 3 ASSERT_MY_AMOUNT (true), 4 unknown opcode given as the empty atom.
+    /// Unknown opcodes are ignored by block validation and rejected in mempool mode.
+    #[serde(default)]
+    pub fillers: Vec<(u8, u8)>,
 }
 
 /// In-flight tampering, applied after the wallet signed.
@@ -246,6 +252,7 @@ struct DSpend {
     amount: u64,
     conds: Vec<DCond>,
     quoted: bool,
+    fillers: Vec<(u8, u8)>,
 }
 
 /// puzzle hash of a spend as it stands (for a quoted puzzle it depends on the conditions)
@@ -293,6 +300,7 @@ fn deliver(b: &BundleSpec, consts: &ConsensusConstants, d: &[[u8; 32]; 7]) -> De
             amount: s.amount,
             conds: s.conds.iter().map(|c| DCond { opcode: c.opcode, key: c.key.clone(), msg: hex::decode(&c.msg).unwrap_or_default() }).collect(),
             quoted: s.quoted,
+            fillers: s.fillers.clone(),
         })
         .collect();
     // a tampering that is part of what the wallet signs
@@ -399,6 +407,9 @@ fn deliver(b: &BundleSpec, consts: &ConsensusConstants, d: &[[u8; 32]; 7]) -> De
 
 struct Truth {
     accept: bool,
+    /// the bundle carries a condition with an unknown opcode: block validation ignores
+    /// it, mempool mode (NO_UNKNOWN_CONDS) rejects the bundle
+    unknown_cond: bool,
     why: &'static str,
     /// (key bytes, reference message) of every condition with a valid key, in order
     pairs: Vec<(Vec<u8>, Vec<u8>)>,
@@ -406,6 +417,7 @@ struct Truth {
 
 /// Expected verdict, by construction, computed from the bundle as delivered.
 fn truth(dl: &Delivered, d: &[[u8; 32]; 7]) -> Truth {
+    let unknown_cond = dl.spends.iter().any(|s| s.fillers.iter().any(|f| f.1 == 1 || f.1 == 4));
     let mut pairs = vec![];
     let mut bad_key = false;
     let mut unsafe_suffix = false;
@@ -427,23 +439,23 @@ fn truth(dl: &Delivered, d: &[[u8; 32]; 7]) -> Truth {
     let mut ids = std::collections::BTreeSet::new();
     for s in &dl.spends {
         if !ids.insert(sha(&[&s.parent, &spend_ph(s), &int_atom(s.amount)])) {
-            return Truth { accept: false, why: "same_coin_spent_twice", pairs };
+            return Truth { accept: false, unknown_cond, why: "same_coin_spent_twice", pairs };
         }
     }
     if bad_key {
-        return Truth { accept: false, why: "infinity_or_malformed_key", pairs };
+        return Truth { accept: false, unknown_cond, why: "infinity_or_malformed_key", pairs };
     }
     if unsafe_suffix {
-        return Truth { accept: false, why: "unsafe_message_ends_in_domain_constant", pairs };
+        return Truth { accept: false, unknown_cond, why: "unsafe_message_ends_in_domain_constant", pairs };
     }
     let mut a = pairs.clone();
     let mut b = dl.signed.clone();
     a.sort();
     b.sort();
     if a == b {
-        Truth { accept: true, why: "signed_exactly_the_prescribed_pairs", pairs }
+        Truth { accept: true, unknown_cond, why: "signed_exactly_the_prescribed_pairs", pairs }
     } else {
-        Truth { accept: false, why: "signed_pairs_differ_from_prescribed_pairs", pairs }
+        Truth { accept: false, unknown_cond, why: "signed_pairs_differ_from_prescribed_pairs", pairs }
     }
 }
 
@@ -457,11 +469,48 @@ fn list(a: &mut Allocator, items: &[NodePtr]) -> NodePtr {
 
 fn cond_list(a: &mut Allocator, s: &DSpend) -> NodePtr {
     let mut conds = vec![];
-    for c in &s.conds {
+    let filler = |a: &mut Allocator, kind: u8| -> NodePtr {
+        match kind {
+            1 => {
+                let op = a.new_atom(&[2]).unwrap();
+                let m = a.new_atom(b"x").unwrap();
+                list(a, &[op, m])
+            }
+            2 => {
+                let op = a.new_atom(&[60]).unwrap();
+                let m = a.new_atom(b"announce").unwrap();
+                list(a, &[op, m])
+            }
+            3 => {
+                let op = a.new_atom(&[73]).unwrap();
+                let am = a.new_atom(&int_atom(s.amount)).unwrap();
+                list(a, &[op, am])
+            }
+            4 => {
+                let op = a.nil();
+                let m = a.new_atom(b"x").unwrap();
+                list(a, &[op, m])
+            }
+            _ => {
+                let op = a.new_atom(&[1]).unwrap();
+                let m = a.new_atom(b"remark").unwrap();
+                list(a, &[op, m])
+            }
+        }
+    };
+    for (j, c) in s.conds.iter().enumerate() {
+        for f in s.fillers.iter().filter(|f| f.0 as usize == j) {
+            let n = filler(a, f.1);
+            conds.push(n);
+        }
         let op = a.new_atom(&[c.opcode]).unwrap();
         let k = a.new_atom(&key_bytes(&c.key)).unwrap();
         let m = a.new_atom(&c.msg).unwrap();
         conds.push(list(a, &[op, k, m]));
+    }
+    for f in s.fillers.iter().filter(|f| f.0 as usize >= s.conds.len()) {
+        let n = filler(a, f.1);
+        conds.push(n);
     }
     list(a, &conds)
 }
@@ -683,7 +732,7 @@ fn judge(party: &Party, r: &PartyResult, truths: &[Truth], case: &Case, phase: &
         PartyResult::Verdict(v) => v,
         PartyResult::Pre { verdict, key_problem, .. } => {
             if let (Ok(()), Some(kp)) = (verdict, key_problem) {
-                if t.accept {
+                if t.accept && !t.unknown_cond {
                     return Some((format!("prevalidation_cache_keys:{phase}"), kp.clone()));
                 }
             }
@@ -692,11 +741,14 @@ fn judge(party: &Party, r: &PartyResult, truths: &[Truth], case: &Case, phase: &
         PartyResult::Unit => return None,
     };
     let got = verdict.is_ok();
-    if got != t.accept {
+    let strict = matches!(party, Party::PreValidate { .. });
+    let want = t.accept && !(strict && t.unknown_cond);
+    if got != want {
         let path = party_name(party);
+        let why = if t.accept && !want { "unknown_condition_in_mempool_mode" } else { t.why };
         return Some((
-            format!("verdict:{path}:{phase}:expected_{}_got_{}:{}", if t.accept { "accept" } else { "reject" }, if got { "accept" } else { "reject" }, t.why),
-            format!("bundle {i} (tampering: {tamper}): {path} returned {verdict:?}; ground truth: {} ({})", if t.accept { "accept" } else { "reject" }, t.why),
+            format!("verdict:{path}:{phase}:expected_{}_got_{}:{}", if want { "accept" } else { "reject" }, if got { "accept" } else { "reject" }, why),
+            format!("bundle {i} (tampering: {tamper}): {path} returned {verdict:?}; ground truth: {} ({})", if want { "accept" } else { "reject" }, why),
         ));
     }
     None
@@ -768,7 +820,8 @@ impl C05 {
                 c.inc("no_cache_validations");
                 for (path, r) in checks {
                     d.u64(u64::from(r.is_ok()));
-                    if r.is_ok() != truths[i].accept {
+                    let want = truths[i].accept && !(path == "validate_clvm_and_signature" && truths[i].unknown_cond);
+                    if r.is_ok() != want {
                         return out(
                             Some(viol(
                                 format!("verdict:{path}:no_cache:expected_{}_got_{}:{}", if truths[i].accept { "accept" } else { "reject" }, if r.is_ok() { "accept" } else { "reject" }, truths[i].why),
@@ -1036,7 +1089,13 @@ fn gen_bundle(rng: &mut Rng, parent_counter: &mut u64, tamper_pct: u64, d: &[[u8
             }
             _ => *parent_counter,
         };
-        spends.push(SpendSpec { parent_seed, amount, conds, quoted: rng.chance(1, 3) });
+        let nf = match rng.below(8) {
+            0..=4 => 0,
+            5 | 6 => 1,
+            _ => rng.range(2, 3),
+        };
+        let fillers: Vec<(u8, u8)> = (0..nf).map(|_| (rng.below(conds.len() as u64 + 1) as u8, rng.below(5) as u8)).collect();
+        spends.push(SpendSpec { parent_seed, amount, conds, quoted: rng.chance(1, 3), fillers });
     }
     let total: usize = spends.iter().map(|s| s.conds.len()).sum();
     let tamper = if rng.below(100) < tamper_pct {
@@ -1219,6 +1278,11 @@ impl Engine for C05 {
                 for ci in 0..s.conds.len() {
                     let mut c = case.clone();
                     c.bundles[bi].spends[si].conds.remove(ci);
+                    out.push(c);
+                }
+                if !s.fillers.is_empty() {
+                    let mut c = case.clone();
+                    c.bundles[bi].spends[si].fillers.clear();
                     out.push(c);
                 }
                 if s.amount != 1 {
